@@ -168,6 +168,9 @@ func c09Check(c *Ctx, m map[string]interface{}, prefix string, noattr, dot bool)
 		c.Violate("Map.LeafNodes", "panic", shape, cas, nil, st)
 		return
 	}
+	c.RetainVal("Map.LeafNodes", ln, cas)
+	c.RetainVal("Map.LeafPaths", lp, cas)
+	c.RetainVal("Map.LeafValues", lv, cas)
 	enc := func(p string, v interface{}) string { return p + " = " + dump(v) }
 	var e, g []string
 	for _, l := range exp {
@@ -215,7 +218,7 @@ func c09Check(c *Ctx, m map[string]interface{}, prefix string, noattr, dot bool)
 
 func c09Run(c *Ctx) {
 	mustBeDefault(c)
-	c.S.Rule = "cases = (Map, attribute prefix, no-attributes, dot-notation): every Map template with <= N nodes over keys {a, y<prefix>z, <prefix>x, #text} (enumeration + resolution clauses) and over {a, \"\", a.b, <prefix>x} (enumeration clause with arbitrary keys incl. the empty key), leaves incl. null, plus Maps decoded from the U-XML documents; prefixes {-, @, \"\", attr_} (dot notation set explicitly for two of them and reached through the toggling form for the other two); explicit false and omitted no_attr argument alternate; each under ascending and descending map order. Oracle: reference leaf list (multiset of path=value), LeafPaths/LeafValues are projections, every leaf path resolves through ValuesForPath to exactly its value. non-trivial = at least one leaf."
+	c.S.Rule = "cases = (Map, attribute prefix, no-attributes, dot-notation): every Map template with <= N nodes over keys {a, y<prefix>z, <prefix>x, #text} (enumeration + resolution clauses) and over {a, \"\", a.b, <prefix>x} (enumeration clause with arbitrary keys incl. the empty key), leaves incl. null, plus Maps decoded from the U-XML documents; prefixes {-, @, \"\", attr_} (dot notation set explicitly for two of them and reached through the toggling form for the other two); explicit false and omitted no_attr argument alternate; each under ascending and descending map order; plus every sequence of <= 3 (notation switch in {bare toggle, explicit on, explicit off}, LeafNodes/LeafPaths/LeafValues on one of 4 Maps with lists of different lengths) steps in one process. Results are retained and re-checked after later calls. Oracle: reference leaf list (multiset of path=value), LeafPaths/LeafValues are projections, every leaf path resolves through ValuesForPath to exactly its value. non-trivial = at least one leaf."
 	c.S.Assumptions = []string{"reference leaf enumeration in harness/c09.go", "resolution clause restricted as the property states (keys free of . [ *, no list-in-list, bracket notation)"}
 	n := 5
 	if c.Thorough {
@@ -302,6 +305,62 @@ func c09Run(c *Ctx) {
 			}
 		}
 	}
+	// notation switched between calls in one process: bare toggles and explicit calls interleaved, on Maps
+	// with lists of different lengths (a later call meets indices both seen and not yet seen before)
+	resetOptions()
+	hist := []string{`{"a":["p","q"]}`, `{"a":["p","q","r","s"],"k":{"a":[{"a":"p"},{"a":["q","r","s"]}]}}`, `{"a":["p"]}`, `{"a":[["p","q"],["r"]]}`}
+	type sw struct {
+		name string
+		f    func()
+		dot  func(bool) bool
+	}
+	sws := []sw{
+		{"toggle", func() { mxj.LeafUseDotNotation() }, func(d bool) bool { return !d }},
+		{"on", func() { mxj.LeafUseDotNotation(true) }, func(bool) bool { return true }},
+		{"off", func() { mxj.LeafUseDotNotation(false) }, func(bool) bool { return false }},
+	}
+	var seqRec func(depth int, dot bool, trail []string)
+	seqRec = func(depth int, dot bool, trail []string) {
+		if depth == 3 {
+			return
+		}
+		for _, s := range sws {
+			for hi := range hist {
+				// replay the whole trail on a fresh option state (stateless search: successor = replay + 1 step)
+				if !c.Mine() {
+					continue
+				}
+				c.S.States++
+				c.S.Evaluations++
+				mxj.LeafUseDotNotation(false)
+				d := false
+				for i := 0; i < len(trail); i += 2 {
+					for _, t := range sws {
+						if t.name == trail[i] {
+							t.f()
+							d = t.dot(d)
+						}
+					}
+					hj, _ := strconv.Atoi(trail[i+1])
+					c09Toggled = true
+					c09Check(c, fromJSON(hist[hj]).(map[string]interface{}), "-", false, d)
+				}
+				s.f()
+				d = s.dot(d)
+				c09Toggled = true
+				c09Check(c, fromJSON(hist[hi]).(map[string]interface{}), "-", false, d)
+				c.S.Schedules++
+				c.S.Validated++
+			}
+		}
+		for _, s := range sws {
+			for hi := range hist {
+				seqRec(depth+1, s.dot(dot), append(append([]string(nil), trail...), s.name, strconv.Itoa(hi)))
+			}
+		}
+	}
+	seqRec(0, false, nil)
+	c09Toggled = false
 	resetOptions()
 }
 
